@@ -154,6 +154,7 @@ func clientScenario(rng *rand.Rand) scenario {
 	replied := make(chan map[int]bool, 1)
 	release := make(chan struct{})
 	defer close(release)
+	base := make(chan uint32, 1)
 	go func() {
 		conn, err := ln.Accept()
 		if err != nil {
@@ -162,12 +163,13 @@ func clientScenario(rng *rand.Rand) scenario {
 		}
 		w := rpc.NewWire(conn)
 		var arr []arrived
+		b := <-base
 		for len(arr) < k {
 			m, err := w.Read()
 			if err != nil {
 				break
 			}
-			arr = append(arr, arrived{m.Seq, int(m.Offset / 4096), m.Type})
+			arr = append(arr, arrived{m.Seq - b, int(m.Offset / 4096), m.Type})
 		}
 		var evs []string
 		sort.Slice(arr, func(i, j int) bool { return arr[i].seq < arr[j].seq })
@@ -182,13 +184,13 @@ func clientScenario(rng *rand.Rand) scenario {
 		replied <- rep
 		for i := 0; i < nreply && i < len(arr); i++ {
 			a := arr[perm[i]]
-			rep := &rpc.Message{MagicVersion: rpc.MagicVersion, Seq: a.seq, Type: rpc.TypeResponse, Size: 0}
+			rep := &rpc.Message{MagicVersion: rpc.MagicVersion, Seq: a.seq + b, Type: rpc.TypeResponse, Size: 0}
 			if a.typ == rpc.TypeRead {
 				rep.Data = bytes.Repeat([]byte{byte(a.id)}, 512)
 				rep.Size = 512
 			}
 			if rng.Intn(10) == 0 { // a stray reply with a sequence number nobody waits for
-				w.Write(&rpc.Message{MagicVersion: rpc.MagicVersion, Seq: a.seq + 100000, Type: rpc.TypeResponse})
+				w.Write(&rpc.Message{MagicVersion: rpc.MagicVersion, Seq: a.seq + b + 100000, Type: rpc.TypeResponse})
 				evs = append(evs, fmt.Sprintf("p%d:2:0", a.seq+100000))
 			}
 			w.Write(rep)
@@ -249,6 +251,16 @@ func clientScenario(rng *rand.Rand) scenario {
 	}
 	closeChan := make(chan struct{}, 16)
 	c := rpc.NewClient(conn, closeChan)
+	// sometimes the connection has already carried close to 2^32 requests: the sequence number wraps
+	// while requests are pending (the peer reports sequence numbers relative to `base`)
+	if rng.Intn(4) == 0 {
+		b := uint32(1<<32 - 1 - uint64(rng.Intn(k+2)))
+		rpc.VerifSetSeq(c, uint64(b))
+		base <- b
+		feat = append(feat, "sequence-number-wraps")
+	} else {
+		base <- 0
+	}
 	results := make([]string, k+2)
 	took := make([]time.Duration, k+2)
 	var wg sync.WaitGroup
